@@ -100,6 +100,8 @@ fn parse_ratio_with_error(input: TokenStream) -> Result<(IBig, UBig, bool), Pars
     let mut den_val: Option<_> = None;
     let mut den_neg = false;
     let mut den_marked = false;
+    let mut num_signed = false;
+    let mut den_signed = false;
     let mut relaxed = false;
     let mut base_marked = false;
     let mut base: Option<_> = None;
@@ -110,7 +112,7 @@ fn parse_ratio_with_error(input: TokenStream) -> Result<(IBig, UBig, bool), Pars
             TokenTree::Literal(lit) => {
                 if num_val.is_none() {
                     num_val = Some(lit.to_string());
-                } else if den_val.is_none() {
+                } else if den_val.is_none() && den_marked {
                     den_val = Some(lit.to_string());
                 } else if base.is_none() && base_marked {
                     base = Some(lit.to_string());
@@ -121,7 +123,7 @@ fn parse_ratio_with_error(input: TokenStream) -> Result<(IBig, UBig, bool), Pars
             TokenTree::Ident(ident) => {
                 if num_val.is_none() {
                     num_val = Some(ident.to_string())
-                } else if den_val.is_none() {
+                } else if den_val.is_none() && den_marked {
                     den_val = Some(ident.to_string());
                 } else if base.is_none() && ident == "base" {
                     base_marked = true
@@ -143,12 +145,22 @@ fn parse_ratio_with_error(input: TokenStream) -> Result<(IBig, UBig, bool), Pars
                         return Err(ParseError::InvalidDigit);
                     }
                 } else if num_val.is_none() {
+                    // at most one sign is allowed
+                    if num_signed {
+                        return Err(ParseError::InvalidDigit);
+                    }
+                    num_signed = true;
                     if punct.as_char() == '-' {
                         num_neg = true;
                     } else if punct.as_char() != '+' {
                         return Err(ParseError::InvalidDigit);
                     }
                 } else if den_val.is_none() {
+                    // the sign of the denominator must follow the slash
+                    if den_signed || !den_marked {
+                        return Err(ParseError::InvalidDigit);
+                    }
+                    den_signed = true;
                     if punct.as_char() == '-' {
                         den_neg = true;
                     } else if punct.as_char() != '+' {
@@ -164,6 +176,9 @@ fn parse_ratio_with_error(input: TokenStream) -> Result<(IBig, UBig, bool), Pars
 
     // generate expressions
     let num_val = num_val.ok_or(ParseError::NoDigits)?;
+    if den_marked && den_val.is_none() {
+        return Err(ParseError::NoDigits);
+    }
     let (num, den) = match base {
         Some(b) => {
             let b = b.parse::<u32>().or(Err(ParseError::UnsupportedRadix))?;
